@@ -29,8 +29,6 @@ def check(ctx: Ctx, ev: Evidence) -> list[Finding]:
     ev.rule("C14-R2", "report_fault dispatch: handler code -> callback kind, (transaction id, condition, progress) passed through unchanged", 4)
     ev.rule("C14-R3", "effect of a declaration per configured code on every ATS edge (ignore / cancel / abandon); no indication with a null transaction id", 12)
     ev.rule("C14-R4", "at most one fault callback per declared condition and public call", 5)
-    h0 = ctx.harness("dest")
-    keys = [k.name for k, _ in h0.default_table.items]
     # ---- R6: the table object belongs to its instance ("the handler code configured in the LOCAL entity's table decides")
     ev.rule("C14-R6", "every fault-handler table instance owns its dict: the constructor stores a fresh object (literal, dict(...), copy), never a module- or class-level one", 1)
     fh_ci = prog.classes.get("cfdppy.mib.DefaultFaultHandlerBase")
@@ -48,7 +46,8 @@ def check(ctx: Ctx, ev: Evidence) -> list[Finding]:
             shared = None
             if isinstance(v, ast.Name) and (v.id in mi_.globals_ or v.id in mi_.imports):
                 shared = f"the module-level object `{v.id}`"
-            elif isinstance(v, ast.Attribute) and ast.unparse(v.value) in (fh_ci.name, "type(self)", "self.__class__", "cls"):
+            elif isinstance(v, ast.Attribute) and (ast.unparse(v.value) in (fh_ci.name, "type(self)", "self.__class__", "cls")
+                                                   or (ast.unparse(v.value) == "self" and (v.attr in fh_ci.class_attrs or v.attr in fh_ci.fields))):
                 shared = f"the class-level object `{ast.unparse(v)}`"
             if isinstance(v, (ast.Dict, ast.Name, ast.Attribute, ast.Call)):
                 n_tab += 1
@@ -58,6 +57,15 @@ def check(ctx: Ctx, ev: Evidence) -> list[Finding]:
                     out.append(Finding("C14-R6", f"{fh_ci.qualname}.__init__ | table aliases a shared object", f"`{norm(n)[:80]}` binds {shared}: set_handler on one entity's table reconfigures the table of every other entity in the process", loc(init, n)))
     if n_tab == 0:
         raise AnalysisError("no attribute initialisation found in DefaultFaultHandlerBase.__init__")
+    try:
+        h0 = ctx.harness("dest")
+    except AnalysisError as exc_:
+        if out:
+            # the table cannot be built abstractly BECAUSE it is a shared object: the definite finding above is the answer
+            print(f"note: {exc_} - reported together with the violation(s) below")
+            return out
+        raise
+    keys = [k.name for k, _ in h0.default_table.items]
     # ---- R1
     n_sites = 0
     for fi in iter_funcs(prog, ["cfdppy.handler.source", "cfdppy.handler.dest"]):
